@@ -4,6 +4,7 @@
 From Coq Require Import ZArith List Bool Lia Ring.
 From IBL.lib Require Import PyInt.
 From IBL.C17 Require Import Model Proofs Object ObjectProofs.
+From IBL.C17 Require FloatCeil.
 Import ListNotations.
 Open Scope Z_scope.
 
@@ -218,6 +219,23 @@ Theorem C17_nwin_unsigned_short_refuted :
   (nwin_raw 16 5 20 15 = 13106 /\ firstlast 5 20 15 = Some [(0, 5)]).
 Proof. split; [exact nwin_raw_wraps | vm_compute; split; reflexivity]. Qed.
 Print Assumptions C17_nwin_unsigned_short_refuted.
+
+(* The float64 arithmetic in the window count (was a trusted assumption in round 1).
+   FloatCeil.nwin_float64 is the source line at the IEEE-754 binary64 datatype level (Flocq:
+   float(n) = binary_normalize, `/` = Bdiv in round-to-nearest-even, np.ceil + int() = ceiling
+   of the value): for |ns - nswin| < 2^53 and 0 < nswin - overlap < 2^53 it IS Model.nwin, whose
+   division is the exact integer ceiling.  (Depends on the standard library's classical reals.) *)
+Theorem C17_nwin_float64_exact : forall ns nswin ov,
+  Z.abs (ns - nswin) < 2 ^ 53 -> 0 < nswin - ov < 2 ^ 53 ->
+  FloatCeil.nwin_float64 ns nswin ov = nwin ns nswin ov.
+Proof. exact FloatCeil.nwin_float64_exact. Qed.
+Print Assumptions C17_nwin_float64_exact.
+
+(* its core: for integers 0 < a, b < 2^53, ceil of the binary64 quotient = ceil of a/b *)
+Theorem C17_float64_ceil_div_exact : forall a b, 0 < a < 2 ^ 53 -> 0 < b < 2 ^ 53 ->
+  FloatCeil.ceil_div64 a b = cdiv a b.
+Proof. exact FloatCeil.float64_ceil_div_exact. Qed.
+Print Assumptions C17_float64_ceil_div_exact.
 
 (* Non-vacuity: concrete triples meeting the hypotheses, with the model's values. *)
 Example C17_example_short_last :
